@@ -405,6 +405,8 @@ func (g *genCtx) tl2Agreement(c *Check, name string, roles map[string]*FuncInfo)
 		return
 	}
 	pos := posStr(g.co.Fset, wr.Decl.Pos())
+	// a value stored into the destination collection must come from a temporary that is fresh per element
+	g.freshTemporaries(c, "tl2-reader-fresh-temporaries", name+".InternalReadTL2", rd)
 	// (2) flattened value ops
 	ww, wb := g.wire(wr, tl2WriteCfg, "w")
 	rw, rb := g.wire(rd, tl2ReadCfg, "r")
